@@ -480,7 +480,7 @@ def st_with(self, s: ast.With, st: State) -> Optional[State]:
     for item in s.items:
         m = self.ev(item.context_expr, st)
         mgrs.append(m)
-        self.emit("with_enter", s, st, mgr=m, uid=uid)
+        self.emit("with_enter", s, st, mgr=m, wid=uid)
         if item.optional_vars is not None:
             self.assign_to(item.optional_vars, mk("entered", m, uid), st, s)
     saved = st.ctx
@@ -489,7 +489,7 @@ def st_with(self, s: ast.With, st: State) -> Optional[State]:
     if r is not None:
         r.ctx = saved
         for m in mgrs:
-            self.emit("with_exit", s, r, mgr=m, uid=uid)
+            self.emit("with_exit", s, r, mgr=m, wid=uid)
     return r
 
 
